@@ -90,6 +90,18 @@ def run(case, tape: Tape, ctx):
         ref = call_eager(case)
     except REFUSALS as e:
         raise Skip(f"eager-refused:{type(e).__name__}")
+    except Exception as e:  # noqa: BLE001
+        # no eager reference.  When the chunked call fails the same way while the graph is built the
+        # two agree (e.g. no label present at all and no expected_groups: IndexError on both sides);
+        # a violation only when the chunked path accepts what the eager path chokes on.
+        try:
+            call_chunked(case)
+        except Exception as e2:  # noqa: BLE001
+            if type(e2) is type(e):
+                raise Skip(f"both-raise:{type(e).__name__}")
+        cls, msg, det = classify_exception(e)
+        det["which"] = "eager"
+        raise Violation(cls, "eager call fails where the chunked call does not: " + msg, **det)
     try:
         with spy_plan() as plan:
             colls, assemble, out = call_chunked(case)
